@@ -167,9 +167,22 @@ ClassifyLoop(run) ==
   ELSE IF \E i \in DOMAIN run.tags : cnt(run.tags[i]) > 1 THEN "transformation_applied_twice"
   ELSE IF \E i \in DOMAIN run.tags : ~\E j \in DOMAIN run.handled : run.handled[j] = run.tags[i] THEN "effect_without_a_handled_change"
   ELSE "ok"
+\* daemons / timers of one object, each invocation with a patch of its own; their writes conflict with each other (422,
+\* carried forward, re-evaluated): whatever an invocation accumulated is in exactly one merge request, and at rest the
+\* effect of its (deliberately not state-checking) transformation is on the object exactly once
+ClassifyDLoop(run) ==
+  LET nreq(m) == Cardinality({k \in DOMAIN run.sent : \E j \in DOMAIN run.sent[k] : run.sent[k][j] = m})
+      ntag(m) == Len(SelectSeq(run.tags, LAMBDA t : t = m))
+      A == {run.accum[i] : i \in DOMAIN run.accum}
+  IN IF \E m \in A : nreq(m) = 0 THEN "accumulated_content_never_sent"
+     ELSE IF \E m \in A : nreq(m) > 1 THEN "accumulated_content_sent_twice"
+     ELSE IF \E m \in A : ntag(m) = 0 THEN "transformation_lost"
+     ELSE IF \E m \in A : ntag(m) > 1 THEN "transformation_applied_twice"
+     ELSE IF \E i \in DOMAIN run.tags : run.tags[i] \notin A THEN "effect_without_an_invocation"
+     ELSE "ok"
 CountTags(doc) == Len(SelectSeq(TagsOf(doc), LAMBDA x : JEq(x, S("t"))))
 ClassifyC08(run) ==
-  IF run.kind = "loop" THEN ClassifyLoop(run) ELSE
+  IF run.kind = "loop" THEN ClassifyLoop(run) ELSE IF run.kind = "dloop" THEN ClassifyDLoop(run) ELSE
   LET labels == [k \in DOMAIN run.calls |-> ClassifyCall(run.calls[k])]
       bad == {k \in DOMAIN run.calls : labels[k] # "ok"}
   IN IF bad # {} THEN labels[CHOOSE k \in bad : \A j \in bad : k <= j]
